@@ -30,7 +30,13 @@ its next call for `k`; `Rec.hasFn`).
 
 Not modelled (the harness never does it): cancelling a root context while it is installed (so
 `k.ctx.Err() != nil` never holds), condition functions of
-`ResetRoutine`/`RestartRoutine`, exit callbacks, several concurrent callers (one driver actor).
+`ResetRoutine`/`RestartRoutine`, exit callbacks.
+
+Several callers may be active at once (`calls`): each call is `inv`, its one critical section
+`exec id`, its constructor lines, `ret`. A timer callback is a goroutine that takes `Keyed.mtx` in
+its own critical section (`timerRemove` / `timerRetry`) at any time after its timer has fired, i.e.
+after the `advance` that follows its arming: calls may run in between (`quiesce` is what says that all
+fired callbacks have run).
 -/
 namespace UtilModel.Keyed
 
@@ -621,7 +627,9 @@ def step (s : St) : Ev → Option St
 
 /-- internal events worth trying -/
 def cands (s : St) : List Ev :=
-  [.exec] ++
+  (s.calls.filterMap fun c => match c with
+    | .invoked id _ => some (.exec id)
+    | _ => none) ++
   ((List.range s.gens.length).flatMap fun g =>
     match s.gens[g]? with
     | none => []
